@@ -226,6 +226,40 @@ func genC20(seed uint64, tier string) *Scenario {
 	if tier == "thorough" {
 		n *= 2
 	}
+	if r.Bool(0.2) {
+		// planes whose edges lie exactly on cell boundaries, merged a few times, then the grid
+		// origin moves (a far sample on the negative side) and they are merged again: the cells
+		// a plane occupies must not depend on where the origin happens to be
+		res := float32(2)
+		axisZ := r.Bool(0.5)
+		mk := func(along, across, half float32, y float32, eAcross float32) QuadSpec {
+			if axisZ {
+				return QuadSpec{C: [3]float32{across, y, along}, E: [3]float32{eAcross, 0, half}}
+			}
+			return QuadSpec{C: [3]float32{along, y, across}, E: [3]float32{half, 0, eAcross}}
+		}
+		k := float32(1 + r.Intn(6))
+		half := []float32{0.25, 0.5, 0.75, 1, 1.5}[r.Intn(5)]
+		y := float32(r.Intn(3))
+		across := float32(r.Intn(9)-4) * 0.5
+		ea := []float32{0.1, 0.5, 1}[r.Intn(3)]
+		centre := k*res - half // the far edge sits on a cell boundary
+		if r.Bool(0.5) {
+			centre = k*res + half // or the near edge does
+		}
+		g.steps = append(g.steps, Step{Conn: 0, Op: "quad_sample", Quads: []QuadSpec{mk(centre, across, half, y, ea)}})
+		for i := r.Intn(3); i > 0; i-- {
+			d := float32(r.Intn(5)-2) * 0.25
+			g.steps = append(g.steps, Step{Conn: 0, Op: "quad_sample", Quads: []QuadSpec{mk(centre+d, across, []float32{0.1, 0.25, 0.5}[r.Intn(3)], y+0.2*float32(r.Intn(2)), ea)}})
+		}
+		far := -float32(8 + r.Intn(50))
+		g.steps = append(g.steps, Step{Conn: 0, Op: "quad_sample", Quads: []QuadSpec{mk(far, across, 1.5, y-3, 0.5)}})
+		for i := 1 + r.Intn(3); i > 0; i-- {
+			d := float32(r.Intn(5)-2) * 0.25
+			g.steps = append(g.steps, Step{Conn: 0, Op: "quad_sample", Quads: []QuadSpec{mk(centre+d, across, []float32{0.5, 1.5, 2.5, 4}[r.Intn(4)], y+0.2*float32(r.Intn(2)), ea)}})
+		}
+		g.steps = append(g.steps, Step{Conn: 0, Op: "get_region", Variant: "cover", F: []float32{-200, 0, -200, 200, 0, 200}})
+	}
 	// a pool of centres so that merges and cascade merges happen
 	type pt struct{ x, y, z float32 }
 	var pool []pt
